@@ -85,12 +85,84 @@ Behaviour(a) ==
            P3(ProbesKm[8]) @@ [op |-> "q", h |-> 3, props |-> <<PC(7)>>, via |-> "composition", expect |-> <<[k |-> "differs", ref |-> "s1"]>>] >>
      \o << [op |-> "release", h |-> 2], [op |-> "release", h |-> 3] >>]
 
-VARIABLE args
-Init == args \in ValidArgs
-Next == UNCHANGED args
+VARIABLES args, cbound, chist, cdone
+Init == args \in ValidArgs /\ cbound = <<>> /\ chist = <<>> /\ cdone = FALSE
+Next == UNCHANGED <<args, cbound, chist, cdone>>
 (* Map is total and argument-preserving on the bounded space *)
 MapOK == /\ MapCreate(args).seed = Seeds[args.seed]
          /\ (args.dir = "rel" /\ ~args.nullflag) => (MapCreate(args).hasdir /\ MapCreate(args).dir = "od_c16/")
          /\ args.nullflag => ~MapCreate(args).hasdir
 Emit == PrintT(<<"B", ToJson(Behaviour(args))>>)
+
+(***************************************************************************)
+(* Life-cycle machine.  Two wrapper handles (1, 2), each dead or bound to  *)
+(* (api, document, seed); handle h has a native twin 10 + h that receives  *)
+(* the World action Map assigns to every wrapper action.  Actions:         *)
+(*   LCreate  LRelease  LProps  LSingle  LSize                             *)
+(* in any order, on any handle, with worlds of two documents (Cartesian    *)
+(* and spherical) and several seeds alive together.  Prop: after every     *)
+(* step the wrapper's answer equals its twin's bit for bit -- the wrapper  *)
+(* layer has no state of its own that a history could disturb (no buffer   *)
+(* shared between handles, nothing kept from an earlier call or a released *)
+(* world).  The history is replayed; the abstract state only records which *)
+(* handles are live.                                                       *)
+(***************************************************************************)
+CONSTANT MaxCHist
+LHandles == {1, 2}
+DocSph == World(Spherical("begin segment"), KSFeatures(TRUE)
+                \o <<[Rnd EXCEPT !["coordinates"] = RectU(TRUE, 1100, 0, 1500, 500)]>>)
+          @@ ("cross section" :> <<XY(TRUE, 0, 250), XY(TRUE, 1000, 250)>>)
+LDocs == {"capi_cart", "capi_sph"}
+LSeeds == {1, 4, 5}                                      \* indices into Seeds: 1, 2^31 - 1, 2^32 + 5
+LProbes == {2, 4, 7, 8}                                  \* continent + mantle + plume, slab, surface, random plate
+LPoint(doc, i, d) ==
+  LET pr == ProbesKm[i] IN
+  IF doc = "capi_cart" THEN (IF d = 3 THEN P3(pr) ELSE P2(pr))
+  ELSE IF d = 3 THEN [sph |-> <<R - pr[3]*Km, Rat(pr[1], 100), Rat(pr[2], 100)>>, dim |-> 3, depth |-> pr[3]*Km]
+       ELSE [p |-> <<Mul(R - pr[3]*Km, Cos(Rad(Rat(pr[1], 100)))), Mul(R - pr[3]*Km, Sin(Rad(Rat(pr[1], 100))))>>, dim |-> 2, depth |-> pr[3]*Km]
+LLists == {<<PT>>, <<PG(0, 3)>>, <<PT, PC(0), PC(7), PTag, PV>>, <<PG(0, 2), PV, PC(7), PG(1, 3), PT>>, <<PV, PV>>}
+
+LPrologue == [id |-> "capi-prologue", global |-> TRUE,
+              steps |-> <<[op |-> "defdoc", name |-> "capi_cart", wb |-> Doc], [op |-> "defdoc", name |-> "capi_sph", wb |-> DocSph]>>]
+
+LInit == cbound = [h \in LHandles |-> <<>>] /\ chist = <<>> /\ cdone = FALSE /\ args = CHOOSE a \in ValidArgs : TRUE
+Live(h) == cbound[h] # <<>>
+LCreate(h, api, doc, s, nf) ==
+  /\ ~Live(h) /\ (nf => api = "c")
+  /\ cbound' = [cbound EXCEPT ![h] = <<api, doc, s>>]
+  /\ chist' = chist \o << [op |-> "create", h |-> 10 + h, api |-> "native", doc |-> doc, seed |-> Seeds[s]],
+                           [op |-> "create", h |-> h, api |-> api, doc |-> doc, seed |-> Seeds[s], null_flag |-> nf] >>
+LRelease(h) ==
+  /\ Live(h)
+  /\ cbound' = [cbound EXCEPT ![h] = <<>>]
+  /\ chist' = chist \o << [op |-> "release", h |-> h], [op |-> "release", h |-> 10 + h] >>
+LSide(h, pt, props, via, wvia) ==
+  << pt @@ [op |-> "q", h |-> 10 + h, props |-> props, via |-> wvia, save |-> "n"],
+     pt @@ [op |-> "q", h |-> h, props |-> props, via |-> via,
+            expect |-> <<[k |-> "len", n |-> Total(props)], [k |-> "bits", at |-> 0, n |-> Total(props), ref |-> "n"]>>] >>
+LProps(h, i, d, ps) ==
+  /\ Live(h) /\ cbound[h][1] = "c" /\ UNCHANGED cbound
+  /\ chist' = chist \o LSide(h, LPoint(cbound[h][2], i, d), ps, "props", "props")
+LSingle(h, i, d, v) ==      \* v: <<wrapper entry point, World entry point, property>>
+  /\ Live(h) /\ (v[1] = "temperature_g" => cbound[h][1] = "cpp") /\ UNCHANGED cbound
+  /\ chist' = chist \o LSide(h, LPoint(cbound[h][2], i, d), <<v[3]>>, v[1], v[2])
+LSize(h, ps) ==
+  /\ Live(h) /\ cbound[h][1] = "c" /\ UNCHANGED cbound
+  /\ chist' = Append(chist, [op |-> "size", h |-> h, props |-> ps, n |-> Total(ps)])
+Singles == {<<"temperature", "temperature", PT>>, <<"temperature_g", "temperature", PT>>,
+            <<"composition", "composition", PC(7)>>, <<"composition", "composition", PC(1)>>}
+LFinish == Len(chist) >= MaxCHist /\ ~cdone /\ cdone' = TRUE /\ UNCHANGED <<args, cbound, chist>>
+LNext == \/ LFinish
+         \/ /\ Len(chist) < MaxCHist /\ ~cdone /\ UNCHANGED <<args, cdone>>
+            /\ \/ \E h \in LHandles, api \in Apis, doc \in LDocs, sd \in LSeeds, nf \in BOOLEAN : LCreate(h, api, doc, sd, nf)
+               \/ \E h \in LHandles : LRelease(h)
+               \/ \E h \in LHandles, i \in LProbes, d \in {2, 3}, ps \in LLists : LProps(h, i, d, ps)
+               \/ \E h \in LHandles, i \in LProbes, d \in {2, 3}, v \in Singles : LSingle(h, i, d, v)
+               \/ \E h \in LHandles, ps \in LLists : LSize(h, ps)
+(* every wrapper step of a history sits right after the World step Map sends it to, on the twin handle *)
+LWellFormed == \A k \in 1..Len(chist) :
+   (chist[k].op = "q" /\ chist[k].h < 10) => (k > 1 /\ chist[k - 1].op = "q" /\ chist[k - 1].h = 10 + chist[k].h
+                                                 /\ chist[k - 1].props = chist[k].props /\ chist[k - 1].depth = chist[k].depth)
+LEmit == ~cdone \/ PrintT(<<"B", ToJson([id |-> <<"capi-history", Len(chist)>>, labels |-> <<"capi", "history">>, steps |-> chist])>>)
+LEmitPrologue == PrintT(<<"B", ToJson(LPrologue)>>)
 =============================================================================
